@@ -248,9 +248,10 @@ impl Scenario for C17Multi {
   fn components(&self) -> (&'static [&'static str], &'static [&'static str]) {
     (&["MultiSubscription, MultiSubscriptionThreads (append, retain, unsubscribe, is_closed, clone)"], &["member subscriptions are harness stubs with counters"])
   }
-  fn generate(&self, rng: &mut Rng, _tier: Tier) -> Value {
+  fn generate(&self, rng: &mut Rng, tier: Tier) -> Value {
     let mut acts = Vec::new();
-    for _ in 0..rng.range(2, 10) {
+    let deep = deepen(rng, tier);
+    for _ in 0..rng.range(2, 10 * deep) {
       acts.push(match rng.weighted(&[5, 1, 2, 2, 4, 2, 1]) {
         0 => MAct::Append,
         1 => MAct::AppendClosed,
